@@ -424,7 +424,7 @@ func TestPropExportImport(t *testing.T) {
 		}
 
 		preserve := rapid.Bool().Draw(t, "preserveIDs")
-		where := rapid.SampledFrom([]string{"otherNode", "rootNode", "secondInstance"}).Draw(t, "target")
+		where := rapid.SampledFrom([]string{"otherNode", "rootNode", "secondInstance", "otherNode", "rootNode", "secondInstance", "replaceRoot"}).Draw(t, "target")
 		dst := src
 		parent := ""
 		switch {
@@ -440,6 +440,12 @@ func TestPropExportImport(t *testing.T) {
 			parent = "dest"
 		case where == "rootNode":
 			parent = "inst"
+		case where == "replaceRoot":
+			// import at the literal parent "root": the imported top node becomes the
+			// instance root of a second instance (the old root is deleted by the importer)
+			dst = fix.New(t, fix.Opts{ID: "inst2"})
+			defer dst.Close()
+			parent = "root"
 		default:
 			dst = fix.New(t, fix.Opts{ID: "inst2"})
 			defer dst.Close()
